@@ -8,6 +8,7 @@ CONSTANTS
   Replica = {}
   MaxOps = 3
   MaxRejected = 0
+  ShapeAttempts = FALSE
   Defect_TieBreakByPartialCmp = FALSE
   Defect_NoopModifyUnchecked = FALSE
   Defect_RecreateAccepted = FALSE
